@@ -71,10 +71,12 @@ func init() {
 				p.Spec.IgnoreDropped = true
 				// output modes and far-away limits do not change how many workers there are
 				p.Spec.Verbose = r.IntN(3) == 0
+				// registered through CombineScenarios in a third of the cases: same handles, same bounds
+				p.Spec.Combine = pick(r, 0, 0, 2)
 				if r.IntN(3) == 0 {
 					p.Spec.MaxIterations = []uint64{1 << 62, 1 << 63, 1<<63 + 1000, ^uint64(0)}[r.IntN(4)]
 				}
-				p.Desc = fmt.Sprintf("mode=%s c=%d perTick=%d body=%s rendezvous=%v verbose=%v max-iterations=%d", mode, c, p.PerTick, p.Body, p.Rendezvous, p.Spec.Verbose, p.Spec.MaxIterations)
+				p.Desc = fmt.Sprintf("mode=%s c=%d perTick=%d body=%s rendezvous=%v verbose=%v max-iterations=%d combine=%d", mode, c, p.PerTick, p.Body, p.Rendezvous, p.Spec.Verbose, p.Spec.MaxIterations, p.Spec.Combine)
 				cse := core.MkCase("C04", "run", i, seed, p)
 				cse.Race = true
 				cse.Procs = pick(r, 1, 2, 4, 16)
